@@ -174,6 +174,19 @@ def run(ctx: common.Ctx):
                         'Dino/Fourier.lean', 'Dino/Lin.lean', 'Dino/Fx.lean', 'DinoGen/SHCert.lean']
                         if os.path.exists(os.path.join(common.LEAN, f_))],
            gen_targets=['DinoGen.SHCert'])
+  # the 8-digit literal `_CONSTANT_NORMALIZATION_FACTOR` of primitive_equations.py (theorems
+  # constant_normalization_literal / constant_normalization_vs_b0): the literal in the Lean statement is the one in the code
+  import re
+  try:
+    c01src = open(os.path.join(common.LEAN, 'DinoProofs/Properties/C01.lean')).read()
+  except OSError:
+    c01src = ''
+  mlit = re.search(r'theorem constant_normalization_literal :\s*\|\(([0-9.]+) : ℝ\)', c01src)
+  if mlit is not None:
+    with ctx.impl('probe-exception', dict(what='_CONSTANT_NORMALIZATION_FACTOR')):
+      from dinosaur import primitive_equations as pe
+      ctx.corr_exact('primitive_equations._CONSTANT_NORMALIZATION_FACTOR (literal of constant_normalization_literal)',
+                     dict(lean=mlit.group(1)), repr(float(pe._CONSTANT_NORMALIZATION_FACTOR)), repr(float(mlit.group(1))))
   if not ctx.quick and gen is not None and gen['xnames']:
     # larger certificate family: one module per grid (built in parallel), audited like the indexed theorems
     if ctx.lean_build(gen['xmodules'], what='proof'):
@@ -542,6 +555,17 @@ def probe_grid(ctx, jnp, sh, g, cfg, inp0, nspec, units):
       ctx.expect(np.abs(y * ~mask).max() <= 1e-12 * max(1.0, float(l1.max())), 'outside-triangle-appears',
                  f'analysis produced coefficients outside the mask: {float(np.abs(y * ~mask).max()):.3e}', inp)
       ctx.case(('probe', kind) + key + (x.tobytes(),), nontrivial=R >= 3)
+  # the constant field 1 has the spectral coefficient 1/b0 = sqrt(4 pi) (T1.4, |b0^2 4 pi - 1| <= 1e-15), and the 8-digit
+  # literal of primitive_equations._add_constant agrees with it within its stated digits (|literal b0 - 1| <= 1e-9)
+  with ctx.impl('probe-exception', dict(inp0, kind='ones')):
+    from dinosaur import primitive_equations as pe
+    ones00 = float(np.asarray(g.to_modal(jnp.ones((Nn, Jn))))[0, 0])
+    ctx.expect(abs(ones00 / math.sqrt(4 * math.pi) - 1) <= TOL, 'constant-normalization',
+               f'to_modal(1)[0,0] = {ones00!r} is not sqrt(4 pi) = {math.sqrt(4 * math.pi)!r}', dict(inp0, kind='ones'))
+    lit = float(pe._CONSTANT_NORMALIZATION_FACTOR)
+    ctx.expect(abs(lit / ones00 - 1) <= 1e-9, 'constant-normalization-literal',
+               f'_CONSTANT_NORMALIZATION_FACTOR = {lit!r} differs from to_modal(1)[0,0] = {ones00!r} by more than 1e-9 '
+               f'relative', dict(inp0, kind='ones'))
   # nodal data: analysis output is confined to the mask for arbitrary input
   zr = rng.standard_normal((2, Nn, Jn))
   with ctx.impl('probe-exception', dict(inp0, kind='nodal')):
